@@ -77,7 +77,11 @@ def run(rep, tier, seed, replay):
             if base_p.rstrip("/") in ("@R",) or base_p == "@R":
                 links = [p for p, k, _d in nodes if k.startswith("l")]
                 ypaths = [x[0] for x in all_]
-                errs = [p for p, _d in walklib.err_items(u.f.get("items"))]
+                canon = lambda p: "/".join(x for x in (p or "").split("/") if x)
+                errs = [canon(p) for p, _d in walklib.err_items(u.f.get("items"))]
+                ypaths = [canon(p) for p in ypaths]
+                links = [canon(p) for p in links]
+                nodes = [(canon(p), k, d) for p, k, d in nodes]
                 if u.link == "f":
                     inside = [y for y in ypaths if any(y.startswith(l + "/") for l in links)]
                     if inside:
